@@ -3,7 +3,8 @@ package udp
 
 // C07 (a) — version agreement: one harness per UDP pack type (parallel jobs).
 // Bounds: strings 0..2 bytes (focus) / 1 byte, numbers full range (focus) / 1..100,
-// decimal-text fields full range (focus) / 1..9, protocol version any int32.
+// decimal-text fields |v| <= 10^4 (quick) / 10^5 (thorough) for the focus one, distinct
+// small constants for the others; protocol version any int32.
 
 import (
 	"github.com/whatap/golib/io"
@@ -47,10 +48,10 @@ func zzDecTxResultSet(u UdpPack) []interface{} { return []interface{}{&u.(*UdpTx
 //vf: paths=20000 t.paths=400000
 func ZZ_C07_TxStart() { zzRoundTrip("TxStart", zzMkTxStart, nil, nil, nil) }
 
-//vf: paths=60000 t.paths=600000
+//vf: paths=60000 t.paths=600000 t.deadline=40m
 func ZZ_C07_TxStartEnd() { zzRoundTrip("TxStartEnd", zzMkTxStartEnd, zzDecTxStartEnd, nil, nil) }
 
-//vf: paths=60000 t.paths=600000
+//vf: paths=60000 t.paths=600000 t.deadline=40m
 func ZZ_C07_TxEnd() { zzRoundTrip("TxEnd", zzMkTxEnd, zzDecTxEnd, nil, nil) }
 
 //vf: paths=20000 t.paths=400000
